@@ -5,14 +5,6 @@ gone through the writer's rounding `rnd`; integers (validity flags) have not. -/
 namespace DFV.C16
 open DFV DFV.Mesh
 
-/-- what the text writer does to one array -/
-def roundArr (r : Rat → Rat) (a : VArr) : VArr := if a.int then a else { a with vals := a.vals.map r }
-
-theorem roundArr_name (r : Rat → Rat) (a : VArr) : (roundArr r a).name = a.name := by
-  unfold roundArr; split <;> rfl
-
-theorem mapGrid_cell (r : Rat → Rat) (g : Grid) : (mapGrid r g).cell = g.cell.map (roundArr r) := rfl
-
 theorem getD_map_lt {α β} (l : List α) (f : α → β) (i : Nat) (d : β) (d' : α) (h : i < l.length) :
     (l.map f).getD i d = f (l.getD i d') := by
   simp [List.getD_eq_getElem?_getD, List.getElem?_map, List.getElem?_eq_getElem h]
@@ -119,13 +111,7 @@ theorem fromCells_rounded (f : Fld) (nx ny nz : Nat) (h : WF f nx ny nz) (g : Gr
   obtain ⟨value, hvalue⟩ := unflat4_ok nx ny nz f.nvdim _ hfl
   obtain ⟨vld, hvld⟩ := unflat3_ok nx ny nz _ hvl
   have hmk := mkField_ok m1 f.nvdim (cellsOf value [nx, ny, nz] f.nvdim) (toBool vld [nx, ny, nz]) _ _ h.nv
-    (vdims_read f nx ny nz h) (by
-      by_cases h1 : f.nvdim = 1
-      · exact Or.inl h1
-      · right
-        rw [if_neg h1]
-        obtain ⟨vs, hvs, _⟩ := h.labels (by have := h.nv; omega)
-        rw [hvs]; simp)
+    (vdims_read f nx ny nz h)
   refine ⟨{ mesh := m1, nvdim := f.nvdim, data := cellsOf value [nx, ny, nz] f.nvdim,
              valid := toBool vld [nx, ny, nz], vdims := if f.nvdim = 1 then none else f.vdims,
              vmap := defaultVmap f.nvdim m1.region.dims (if f.nvdim = 1 then none else f.vdims), unit := none },
